@@ -12,18 +12,30 @@ def ord_impl(F, ty, method="cmp", trait="std::cmp::Ord"):
     return fs[0] if fs else None
 
 def check_stages(rep, rule, cmpr, specs, what):
-    if len(cmpr.stages) != len(specs):
-        rep.bad(rule, "stage-count:" + what, "%s has %d lexicographic stages, the reference %d (%s)" % (what, len(cmpr.stages), len(specs), [s[0] for s in specs]), cmpr.fn.where())
-        return
+    """Compare the extracted comparator with the reference.  When the code happens to be a then_with chain of the same
+    length, each stage is additionally compared on its own (better diagnostics); the verdict comes from the
+    shape-independent whole-function comparison, so an equivalent `match`-style rewrite is not an alarm."""
     total = 0
-    for i, (st, (name, keys, fn)) in enumerate(zip(cmpr.stages, specs)):
-        try:
-            diffs, n = cmpterm.compare_stage(cmpr, st, keys, fn)
-        except cmpterm.Unrecognised as e:
-            rep.bad(rule, "unrecognised-shape:%s:%s" % (what, name), "stage %d (%s) of %s: %s" % (i, name, what, e), cmpr.fn.where()); continue
-        total += n
-        if diffs: rep.bad(rule, "stage-differs:%s:%s" % (what, name), "stage %d (%s) of %s differs from the reference: %s" % (i, name, what, "; ".join(diffs)), cmpr.fn.where())
-        else: rep.ok(rule, "%s stage %d '%s' equals the reference on all %d abstract assignments" % (what, i, name, n), sample=sorted(keys), nontrivial_key=what + name)
+    try:
+        diffs, n = cmpterm.compare_whole(cmpr, specs)
+    except cmpterm.Unrecognised as e:
+        rep.bad(rule, "unrecognised-shape:" + what, "%s: %s" % (what, e), cmpr.fn.where()); return 0
+    total += n
+    if not diffs:
+        rep.ok(rule, "%s equals the lexicographic reference %s on all %d abstract assignments (each stage exhaustively, plus stage priority)" % (what, [s_[0] for s_ in specs], n), sample=[sorted(s_[1]) for s_ in specs][:3], nontrivial_key=what + "whole")
+        return total
+    # locate the stage for the report
+    located = False
+    if len(cmpr.stages) == len(specs):
+        for i, (st, (name, keys, fn)) in enumerate(zip(cmpr.stages, specs)):
+            try: d2, n2 = cmpterm.compare_stage(cmpr, st, keys, fn)
+            except cmpterm.Unrecognised as e: d2 = [str(e)]; n2 = 0
+            total += n2
+            if d2:
+                located = True
+                rep.bad(rule, "stage-differs:%s:%s" % (what, name), "stage %d (%s) of %s differs from the reference: %s" % (i, name, what, "; ".join(d2)), cmpr.fn.where())
+    if not located:
+        rep.bad(rule, "comparator-differs:" + what, "%s is not the reference comparator %s: %s" % (what, [s_[0] for s_ in specs], "; ".join(diffs[:3])), cmpr.fn.where())
     return total
 
 def field_stage(field, ty):
